@@ -563,7 +563,15 @@ def main(argv=None):
                     parts.append(json.load(f))
                 os.unlink(out)
         res = merge(parts)
-        return finish(prop, a.tier, seed, res, time.time() - t0, build.assumptions())
+        extra = build.assumptions()
+        try:  # what the check trusts is written once, in the manifest (level_note)
+            with open(os.path.join(VERIF, "MANIFEST.json")) as f:
+                for c in json.load(f)["checks"]:
+                    if c["property_id"] == prop:
+                        extra.append(c["level_note"])
+        except Exception:
+            pass
+        return finish(prop, a.tier, seed, res, time.time() - t0, extra)
     except HarnessError as e:
         sys.stderr.write("HARNESS ERROR: %s\n" % e)
         return 2
